@@ -21,6 +21,11 @@
 (*   C16.Circulates         an instance passed more than MaxHops           *)
 (*                          forwarders, or the network did not come to     *)
 (*                          rest within the rig's bound                    *)
+(*   C16.RpcResultMissing   at rest, the result of an RPC request (Publish *)
+(*                          with re = id of the request it answers) has    *)
+(*                          not reached the side the request was sent from *)
+(*                          - whatever flag the result was published with: *)
+(*                          the request's own flag is spent after one hop  *)
 (*   C16.Missing            at rest, a side has not got a message it is    *)
 (*                          due (forwarded: every side; else: the          *)
 (*                          publishing side)                               *)
@@ -50,7 +55,7 @@ T      == Traces[tid]
 Ev     == T.events
 SidesT == {T.sides[i] : i \in 1 .. Len(T.sides)}
 IdsT   == 1 .. T.nmsgs
-NoPub  == [side |-> "none", origin |-> Absent, fwd |-> Absent, kind |-> "none"]
+NoPub  == [side |-> "none", origin |-> Absent, fwd |-> Absent, kind |-> "none", re |-> 0]
 
 E(cond, name) == IF cond THEN {} ELSE {name}
 
@@ -89,7 +94,7 @@ Step ==
      /\ CASE e.ev = "Publish" ->
                IF e.id \in IdsT /\ e.side \in SidesT THEN
                  /\ pub'  = [pub EXCEPT ![e.id] = [side |-> e.side, origin |-> e.origin,
-                                                   fwd |-> e.fwd, kind |-> e.kind]]
+                                                   fwd |-> e.fwd, kind |-> e.kind, re |-> e.re]]
                  /\ infl' = infl + e.fan
                  /\ errs' = errs \cup E(pub[e.id] = NoPub, "M.PublishedTwice")
                  /\ UNCHANGED got
@@ -145,6 +150,9 @@ Step ==
                     \cup (IF e.drained
                           THEN UNION {E(got[s][i] >= ExpectT(pub[i], s), "C16.Missing")
                                         : s \in SidesT, i \in {j \in IdsT : pub[j] # NoPub}}
+                               \cup UNION {E(got[pub[pub[i].re].side][i] >= 1, "C16.RpcResultMissing")
+                                             : i \in {j \in IdsT : pub[j] # NoPub /\ pub[j].re \in IdsT
+                                                                     /\ pub[pub[j].re] # NoPub}}
                                \cup E(infl = 0 /\ e.left = 0, "M.Inflight")
                           ELSE {})
                /\ UNCHANGED <<pub, got, infl>>
